@@ -75,7 +75,9 @@ Step ==
 
 Finish ==
   /\ ~done /\ (err # "ok" \/ l > Len(Ev))
-  /\ PrintT(<<"VERDICT", Tr.id, err, l - 1, IF T.n > 0 THEN T.n ELSE 0>>)
+  /\ PrintT(<<"VERDICT", Tr.id, err, l - 1, IF T.n > 0 THEN T.n ELSE 0,
+              \* the closing event is examined even when an earlier clause stopped the walk: the user's domain object (C14)
+              IF err # "ok" /\ err # "end.domain-mutated" /\ Ev[Len(Ev)].k = "end" /\ Ev[Len(Ev)].dom_same # 1 THEN "end.domain-mutated" ELSE "ok">>)
   /\ done' = TRUE /\ UNCHANGED <<tid, l, T, ph, err>>
 
 Next == Step \/ Finish
